@@ -19,7 +19,7 @@ def handle (op : String) (j : Json) : Option Json :=
     let (outs, _) := runScenario j
     let model := obj [("steps", Json.arr outs.toArray)]
     let prop := getStr j "prop"
-    let known := ["C01", "C02", "C03", "C04", "C08", "C09", "C10", "C11", "C15", "C16"]
+    let known := ["C01", "C02", "C03", "C04", "C08", "C09", "C10", "C11", "C15", "C16", "C19"]
     if !known.contains prop then some (obj [("model", model), ("holds", Json.bool true)]) else
     let cfg := getCfg (getObj j "cfg")
     let fs0 := getTree (getArr j "tree")
@@ -42,6 +42,7 @@ def handle (op : String) (j : Json) : Option Json :=
           | "C02" => c02 v
           | "C03" => c03 v
           | "C04" => c04 v
+          | "C19" => c04 v     -- "only use of the build, upper or work directory makes the layer un-unmountable"
           | "C08" => c08 v
           | "C09" => c09 v
           | "C10" => c10 v
